@@ -336,3 +336,15 @@ func TestVerifFindingAbortStillInterrupts(t *testing.T) {
 		t.Errorf("C-g on a plain line: accepted=%v err=%v, want the call to end with ErrInterrupt", s.accepted, s.err)
 	}
 }
+
+// C16 / C17 with a numbered register selected ("3yw, "3p): Buffers.WriteTo tested `err != nil` where it meant
+// `err == nil`, so a kill or yank into one of the registers "1 - "9 was written nowhere.
+func TestVerifFindingNumberedRegisterWrite(t *testing.T) {
+	rl := NewShell()
+	rl.init()
+	rl.Buffers.WriteTo('3', []rune("hello")...)
+	rl.Buffers.SetActive('3')
+	if got := string(rl.Buffers.Active()); got != "hello" {
+		t.Errorf("register \"3 after WriteTo('3', hello): %q, want %q", got, "hello")
+	}
+}
